@@ -48,15 +48,15 @@ CHECKS = {
                 note="adversarial outcomes restricted to positive-probability ones; bound derivation in DESIGN.md Engine E; reference joint by sim/refmodel.py"),
     "C13": dict(engine="est-hist", ref="3 (Engine C)",
                 technique="deterministic simulation: generated estimate-call histories with callback-interrupt faults, refinement against a fresh-estimator reference model",
-                text="seeded histories of estimate()/query operations on one estimator object (solvers MD/RDA/IG, varying measurement subsets, totals, iteration counts, callback interrupts injected inside the solver loop). Without warm start every returned model is compared with what a fresh estimator returns for that single call; every returned model's answers and parameters are digested at return time and re-checked bitwise after every later operation; caller inputs are compared bitwise before/after; with warm start, warm and cold runs must reach the same loss (escalated before reporting).",
+                text="seeded histories of estimate()/query operations on one estimator object (solvers MD/RDA/IG, varying measurement subsets, totals, iteration counts, callback interrupts injected inside the solver loop). Without warm start every returned model is compared with what a fresh estimator returns for that single call; every returned model's answers and parameters are digested at return time and re-checked bitwise after every later operation; caller inputs are compared bitwise before/after; a callback passed to one call must never be invoked by a later one; with warm start, warm and cold runs must reach the same loss in both directions (escalated before reporting).",
                 note="eigsh start vector fixed by the harness; few iterations per call so that a leaked start point shows; totals kept consistent with the data; convergence clause uses the solver's own line search"),
     "C08": dict(engine="est-hist", ref="3 (Engine C)",
                 technique="deterministic simulation: generated estimate-call histories (all solvers, iteration counts from 1, early exits, warm start, interrupts) with coherence invariants checked on every returned model",
-                text="every model returned along a seeded history is checked: stored marginals == belief_propagation(stored parameters); every answer (all cliques, full vector, random out-of-clique projections) finite, non-negative, sums to model.total and agrees with the full vector on shared attributes; estimate raises nothing.",
+                text="every model returned along a seeded history is checked: stored marginals == belief_propagation(stored parameters); every answer (a Kronecker query asked first, all cliques, full vector, random out-of-clique projections) finite, non-negative, sums to model.total and agrees with the full vector on shared attributes; estimate raises nothing; models are re-checked after synthetic_data was called on them and at the end of the history.",
                 note="tolerance 1e-6 relative + 1e-8*total; known finding F8 (parameters beyond 1e9) carries its own signature"),
     "C10": dict(engine="est-hist", ref="3 (Engine C)",
                 technique="deterministic simulation: generated estimate-call histories with structural zeros plus simulator-chosen RNG outcomes for synthetic records; zero-mass invariants after every step",
-                text="estimators configured with structural zeros on measured cliques, sub-cliques and unmeasured attribute groups are driven through seeded histories (three solvers, cold and warm start, interrupts); for every returned model every declared cell must carry <= 1e-50*total in in-clique and out-of-clique answers and the full vector, nothing is NaN, everything sums to total, and synthetic_data under adversarial SimRNG outcomes puts no record in a declared cell.",
+                text="estimators configured with structural zeros on measured cliques, sub-cliques and unmeasured attribute groups are driven through seeded histories (three solvers, cold and warm start, interrupts); for every returned model every declared cell must carry <= 1e-50*total in in-clique and out-of-clique answers and the full vector, nothing is NaN, everything sums to total, and synthetic_data under adversarial SimRNG outcomes puts no record in a declared cell; 5% of the runs drive AIM(structural_zeros=...) end to end and check its output the same way.",
                 note="1e-50 threshold because RDA/IG refit parameters through log(mu+1e-100) by design"),
     "C20": dict(engine="primitives", ref="3 (Engine G)",
                 technique="seam observation under the simulated PRNG (no schedule or fault: the fake PRNG is where the calibrated probabilities and scales are visible exactly); repeated-call histories on the caller's objects",
@@ -68,7 +68,7 @@ CHECKS = {
                 note="finite potentials only; potentials on intersection regions are a separate signature (known finding F9)"),
     "C18": dict(engine="local-oracle", ref="3 (Engine F)",
                 technique="deterministic simulation: LocalInference estimator-reuse histories over oracles and iteration counts that select restart / damping / post-iteration paths; validity invariants and closed-form optimum on disjoint cliques",
-                text="LocalInference.estimate for oracles convex / approx / pairwise, 1-2 calls per estimator object (warm start on/off), iteration counts 1..300: no exception, every measured clique's table finite, non-negative and summing to total, loss no worse than the uniform start, primal feasibility < 1.0 with the convex oracle, and on pairwise-disjoint cliques the loss must reach the closed-form optimum (escalated x4, x16 before reporting).",
+                text="LocalInference.estimate for oracles convex / approx / pairwise, 1-2 calls per estimator object (warm start on/off), iteration counts 1..300: no exception, every measured clique's table finite, non-negative and summing to total, the caller's total is the model's, loss no worse than the uniform start, primal feasibility < 1.0 with the convex oracle and overlapping measured tables disagreeing by at most edges x feasibility (triangle inequality along the region graph), and on pairwise-disjoint cliques the loss must reach the closed-form optimum (escalated x4, x16 before reporting).",
                 note="three open known findings (F6, F10, F11) cover the no-worse-than-uniform, recursion and stall clauses on the unchanged tree; Q=None is not passed (LocalInference has no fix_measurements)"),
     "C05": dict(engine="twin-mech", ref="3 (Engine D)",
                 technique="deterministic simulation: record/replay coupling of two mechanism executions on neighbouring datasets under simulator-chosen (faithful and adversarial) random outcomes; conservation invariant on a privacy ledger",
@@ -80,7 +80,7 @@ CHECKS = {
                 note="a divergence is reported with its event index; replayed releases return the recorded value whatever the neighbour's operand is"),
     "C02": dict(engine="query-hist", ref="3 (Engine B)",
                 technique="deterministic simulation: generated query/cache/save-load histories with I/O fault injection, refinement against the explicit joint",
-                text="seeded histories of project / calculate_many_marginals / krondot / datavector / save+load on one model object (direct parameters or returned by estimate); after every operation the answer is compared with the explicit joint in the requested axis order; save/load goes through an in-memory file system that injects write errors, lost tails and read errors.",
+                text="seeded histories of project / calculate_many_marginals / krondot / datavector / synthetic_data / parameter change followed by a bulk query / save+load on one model object (direct parameters or returned by estimate with MD, RDA or IG); after every operation the answer is compared with the explicit joint in the requested axis order; save/load goes through an in-memory file system that injects write errors, lost tails and read errors.",
                 note="reference joint materialised on <= 4096 cells; |theta| <= 10; re-assigning potentials after caching is outside the quantifier and not generated"),
 }
 
